@@ -32,7 +32,8 @@ GAIN = st.one_of(st.sampled_from([1.0, 2.0, 0.5, 16.0]), st.floats(0.1, 50.0))
 def base_sample(draw, max_d=6, max_n=40):
     many = max_d >= 6 and draw(st.integers(0, 7)) == 0          # ten or more parameters: two-digit keyword numbers
     spec = draw(sample_spec(min_d=10 if many else 1, max_d=12 if many else max_d, min_n=1, max_n=max_n, datatypes=('I', 'I', 'F'), log_amp=False,
-                            int_widths=(16, 32), with_time=True))          # a channel may be called 'Time': still a channel
+                            int_widths=(16, 32), with_time=True,          # a channel may be called 'Time': still a channel
+                            resolutions=(256, 1024, 4096, 65536, 262144, 65535, 1023, 4095, 1000)))     # ($PnR need not be a power of two)
     D = len(spec['widths'])
     if draw(st.sampled_from([True, False, False, False])):
         # acquisition software for which some readers know vendor keywords; the standard settings stay what they are
